@@ -136,6 +136,7 @@ func (c *c08) DumpCase(seed uint64, idx int) []Case {
 			}
 		}
 		cfg := randomCfg(r)
+		cfg.Huge = idx%97 == 13 // a few documents carry a > 1 MiB block comment that may be cut into a file
 		d := generateDoc(r, cfg)
 		_, multi, _ := cutProject(d, r, "/sim/proj/api", 4)
 		base.Project = multi
